@@ -8,23 +8,25 @@ name=$1; mut=$2; demo=$3; shift 3
 dst=/verif/seeded/$name
 mkdir -p "$dst"
 git -C "$mut" diff > "$dst/patch.diff"
-cp "$mut/zz_demo_test.go" "$dst/zz_demo_test.go" 2>/dev/null
+demorel=zz_demo_test.go; pkg=.
+if [ -f "$mut/cmd/desync/zz_demo_test.go" ]; then demorel=cmd/desync/zz_demo_test.go; pkg=./cmd/desync; fi
+cp "$mut/$demorel" "$dst/zz_demo_test.go" 2>/dev/null
 [ -f "$mut/NOTES.md" ] && cp "$mut/NOTES.md" "$dst/NOTES.md"
 wt=/tmp/confirm-$name
 git -C /repo worktree remove --force "$wt" >/dev/null 2>&1
 git -C /repo worktree add --detach "$wt" >/dev/null 2>&1 || { echo "worktree failed"; exit 2; }
-cp "$dst/zz_demo_test.go" "$wt/"
+cp "$dst/zz_demo_test.go" "$wt/$demorel"
 cd "$wt"
 echo "== demo on unchanged HEAD (must pass)"
-go test -vet=off -count=1 -run "$demo" . 2>&1 | tail -3
+go test -vet=off -count=1 -run "$demo" $pkg 2>&1 | tail -3
 orig=$?
 echo "== apply patch"
 git apply "$dst/patch.diff" || { echo "PATCH DOES NOT APPLY to HEAD"; exit 2; }
 go build ./... || { echo "BUILD FAILS"; exit 2; }
 echo "== demo with the change (must fail)"
-go test -vet=off -count=1 -run "$demo" . 2>&1 | tail -5
+go test -vet=off -count=1 -run "$demo" $pkg 2>&1 | tail -5
 echo "== existing suite with the change (only TestMountIndex may fail)"
-mv zz_demo_test.go /tmp/zz_demo_$name.go
+mv $demorel /tmp/zz_demo_$name.go
 go test -vet=off -count=1 ./... 2>&1 | grep -v "^ok\|no test files" | grep "^--- FAIL\|^FAIL" | head
 cd /verif
 for id in "$@"; do
